@@ -4,7 +4,7 @@
     X(nop) X(create) X(join) X(free) X(yield) X(yieldn) X(fset) X(fwait)       \
     X(lock) X(lock_low) X(lock_high) X(spinlock) X(trylock) X(unlock)         \
     X(unlock_se) X(unlock_de) X(work)                                         \
-    X(awaitvar) X(advance) X(cwait) X(ctimedwait) X(cwait_rej) X(csignal)      \
+    X(awaitvar) X(awaitvar_t) X(advance) X(cwait) X(ctimedwait) X(cwait_rej) X(csignal)      \
     X(cbroadcast) X(csigloop) X(bwait) X(bwait_rej) X(breinit) X(evset)       \
     X(evwait) X(evwait_rej) X(evtest) X(evreset) X(fuset) X(fuwait)           \
     X(fuwait_rej) X(futest) X(fureset) X(rdlock) X(wrlock) X(rwunlock)        \
@@ -349,6 +349,9 @@ static void exec_op(actor *a, op_t *o)
     switch (o->code) {
         case OP_awaitvar:
             op_awaitvar(a, a0, o->a[1]);
+            break;
+        case OP_awaitvar_t:
+            op_awaitvar_t(a, a0, o->a[1], o->a[2]);
             break;
         case OP_advance:
             if (ds_active())
@@ -709,7 +712,7 @@ static void run_program(void)
         }
     }
     for (int i = 0; i < G.ncond; i++) {
-        if (c_credits[i] != 0)
+        if (c_credits[i] != 0 && !c_racy[i])
             viol("cond %d: %d signal credit(s) were never consumed by a waiter", i, c_credits[i]);
         if (G.cond_kind[i] == 0) {
             rc = ABT_cond_free(&G.cond[i]);
